@@ -908,3 +908,62 @@ def c17_r9(ctx):
             cs = comp_struct(strip_pre(o.deref(o.value)) if isinstance(o.value, ast.Name) else strip_pre(o.value)) if o.value is not None else None
             good = good and cs is not None and cs[0] == "$0" and [(str(a), list(map(str, b))) for a, b in cs[1]] == [(p, [f"isinstance($0, {kind})"])]
         ctx.check(good, key(f2, "selects"), f"{fn} must return exactly the {kind}s of the document: {[o.text()[:100] for o in outs]}", f2.loc(), okmsg=f"{fn} -> the {kind}s, in document order")
+
+
+PGEN = "client_generators.package:PackageGenerator."
+
+
+@rule("C04.R17", "everything a generated module defines for users is re-exported from the package __init__, from the module it was written to", min_instances=8,
+      also=["C01", "C06", "C08", "C09", "C11", "C12"])
+def c04_r17(ctx):
+    repo = ctx.repo
+    rows = [("add_operation", "get_generated_public_names()", "module_name", "query_types_generator.get_generated_public_names()"),
+            ("_generate_enums", "self.enums_generator.get_generated_public_names()", "self.enums_module_name", None),
+            ("_generate_input_types", "self.input_types_generator.get_generated_public_names()", "self.input_types_module_name", None),
+            ("_generate_fragments", "self.fragments_generator.get_generated_public_names()", "self.fragments_module_name", None),
+            ("_generate_client", "[self.client_generator.name]", "self.client_file_name", None),
+            ("_include_exceptions", "GRAPHQL_CLIENT_EXCEPTIONS_NAMES", "EXCEPTIONS_FILE_PATH.stem", None),
+            ("_copy_files", "[self.base_client_name]", "self.base_client_file_path.stem", None),
+            ("_copy_files", "[BASE_MODEL_CLASS_NAME, UPLOAD_CLASS_NAME]", "self.base_model_file_path.stem", None)]
+    for fn, names, module, _ in rows:
+        fi = repo.func(PGEN + fn)
+
+        def atom(e):
+            t = norm(strip_pre(e))
+            if t in ("self.plugin_manager",):
+                return False
+            if t in ("not name", "not definition.name"):
+                return False
+            if t in ("name", "definition.name"):
+                return True
+            if " in (" in t and t.startswith("self.base_client_file_path"):
+                return True
+            if t.endswith(" in self._result_types_files"):
+                return False
+            return None
+        writes_anything = fn not in ("_copy_files",) and any(isinstance(c, ast.Call) and isinstance(c.func, ast.Attribute) and c.func.attr == "write_text" for c in ast.walk(fi.node))
+        outs = [o for o in Interp(fi, atom, is_effect=lambda c: norm(c.func) == "self.init_generator.add_import" or (isinstance(c.func, ast.Attribute) and c.func.attr == "write_text")).run() if o.kind != "raise"]
+        found = False
+        everywhere = bool(outs)
+        for o in outs:
+            hit = False
+            wrote = any(isinstance(strip_pre(e).func, ast.Attribute) and strip_pre(e).func.attr == "write_text" for e in o.effects)
+            for e in o.effects:
+                e = strip_pre(e)
+                if norm(e.func) != "self.init_generator.add_import":
+                    continue
+                n_, f_, l_ = argv(e, 0, "names"), argv(e, 1, "from_"), argv(e, 2, "level")
+                if n_ is None or f_ is None:
+                    continue
+                nt = norm(strip_pre(subst(n_, {k: v for k, v in o.env.items() if k in ("names",)}, deep=True)))
+                ft = norm(strip_pre(o.deref(f_)) if isinstance(f_, ast.Name) and f_.id not in ("module_name",) else f_)
+                mod_ok = ft == module or (module == "module_name" and o.env.get("module_name") is not None and ft == norm(strip_pre(o.env["module_name"])))
+                if (nt == names or nt.endswith("." + names) or (names.endswith("()") and nt.endswith(names))) and mod_ok and is_const(l_, 1):
+                    hit = True
+            found = found or hit
+            # a path that writes the module (or, for functions that write nothing themselves, any path) must re-export
+            if not hit and (wrote or not writes_anything):
+                everywhere = False
+        ctx.check(found and everywhere, key(fi, f"re-export {names} from {module}"), f"{fi.qualname} does not re-export {names} from .{module} (level 1) on every path that generates the module: "
+                  "`from <package> import <Name>` - how the README tells users to reach models, enums, inputs and the client - fails", fi.loc(),
+                  okmsg=f"{fi.qualname}: {names} re-exported from {module}")
